@@ -13,8 +13,25 @@ export GOFLAGS=-mod=mod GOPROXY=off GOSUMDB=off GOTOOLCHAIN=local GOWORK=off
 # 2. Coq development: full .vo build; -k so that a broken generated file only takes down
 #    the proofs that depend on it (each check verifies its own Properties/Cxx.vo)
 (cd coq && coq_makefile -f _CoqProject -o Makefile >/dev/null && (timeout 3000 make -k -j16 2>&1 | grep -v "^COQC\|^COQDEP\|^make" || true))
+# a source that no longer compiles must not leave its previous .vo behind (a stale .vo of a
+# generated file would let stale proofs load): whatever imports it then fails to load
+find coq/theories -name '*.v' | while read -r f; do
+  vo="${f%.v}.vo"
+  if [ -f "$vo" ] && [ "$f" -nt "$vo" ]; then rm -f "$vo" "${f%.v}.vos" "${f%.v}.vok"; fi
+done
 (cd ocaml && timeout 600 coqc -Q ../coq/theories Arche ../coq/theories/Extract/Extract.v >/dev/null \
    && rm -f ../coq/theories/Extract/Extract.vo* ../coq/theories/Extract/Extract.glob ../coq/theories/Extract/.Extract.aux \
    && ocamlfind ocamlopt -w -a model.mli model.ml driver.ml -o driver)
 (cd harness && cp /repo/go.sum . 2>/dev/null; go build -o harness .)
+# 3. translator validation: the translator's output extracted to OCaml, and a harness that calls
+#    the real pool code through the verif-tagged hooks (a failure here only disables that step)
+for k in Pool:pool Locks:lock IntPool:intpool BitSet:bitset Paged:paged; do
+  E=${k%%:*}; n=${k##*:}
+  (cd ocaml && rm -f tvd_$n gm_$n.ml gm_$n.mli \
+     && timeout 600 coqc -Q ../coq/theories Arche ../coq/theories/Extract/ExtractGo$E.v >/dev/null 2>&1 \
+     && rm -f ../coq/theories/Extract/ExtractGo$E.vo* ../coq/theories/Extract/ExtractGo$E.glob ../coq/theories/Extract/.ExtractGo$E.aux \
+     && { echo "open Gm_$n"; cat tvcommon.ml tv_$n.ml; } > tvd_$n.ml \
+     && ocamlfind ocamlopt -w -a gm_$n.mli gm_$n.ml tvd_$n.ml -o tvd_$n) || { echo "TV DRIVER $n NOT BUILT"; rm -f ocaml/tvd_$n; }
+done
+(cd tv_harness && cp /repo/go.sum . 2>/dev/null; go build -tags verif -o tv_harness .) || { echo "TV HARNESS NOT BUILT"; rm -f tv_harness/tv_harness; }
 echo "build ok"
